@@ -216,6 +216,27 @@ ADDED7 = {
 for _pid, _t in ADDED7.items():
     CLAIMS[_pid]["text"] = CLAIMS[_pid]["text"].rstrip() + " Round 7: " + _t
 
+# clauses added in the eighth seeding round
+ADDED8 = {
+    "C01": "R-01.13 is_all_ascii's refusing test, evaluated at 0x7E, 0x7F, 0x80, is False, False, True.",
+    "C02": "R-02.12 adopts C15 R-15.1 (plain encoding keeps the case of embedded names). R-02.13 MandatoryParam sorts the validated key numbers.",
+    "C03": "R-03.8 also adopts C08 R-08.2; R-03.11 no longer lists TKEY (repaired: uncompressed); R-03.12 adopts C07 R-07.3.",
+    "C04": "R-04.10 also adopts C05 R-05.1t.",
+    "C05": "R-05.9 also: _wordbreak slices range(0, len(data), chunksize).",
+    "C08": "R-08.10 dns.tsig.sign changes only time_signed and mac of the template.",
+    "C09": "R-09.7 also adopts C05 R-05.4. R-09.11 the TTL refusal of Transaction._rdataset_from_args, evaluated at MAX_TTL and MAX_TTL + 1, is False and True.",
+    "C10": "R-10.14 the out-of-zone refusal of dns.zone._validate_name is not nested under a test of relativize.",
+    "C12": "R-12.9 also adopts C07 R-07.8.",
+    "C14": "R-14.10 want_tsig_sign is written only by Message.__init__ and use_tsig().",
+    "C15": "R-15.7 also adopts C06 R-06.2.",
+    "C16": "R-16.9 BadResponse, BadEDNS, BadTSIG, TrailingJunk and ShortHeader derive from dns.exception.FormError.",
+    "C17": "R-17.5 also adopts C16 R-16.1; R-17.6 also C07 R-07.6.",
+    "C18": "R-18.9 both _inbound_xfr twins clamp the per-message deadline to the earlier of (message deadline, lifetime).",
+    "C19": "R-19.11 the result of every try_*_steal call decides control flow; BTree.__copy__ always returns self.__class__(original=self).",
+}
+for _pid, _t in ADDED8.items():
+    CLAIMS[_pid]["text"] = CLAIMS[_pid]["text"].rstrip() + " Round 8: " + _t
+
 NA_REASON = {}
 def na(pid, reason):
     NA_REASON[pid] = reason
